@@ -14,10 +14,14 @@ def regenerate(which=("consts",)):
     notes = []
     with C.Lock("build-lean"):
         if "consts" in which:
-            rc, o = C.sh([exe, "consts", C.REPO, os.path.join(gen, "Consts.lean")], env=C.GOENV)
+            rc, o = C.sh([exe, "consts", C.REPO, os.path.join(gen, "Consts.lean"), os.path.join(C.VERIF, "extract", "consts_baseline.lean")], env=C.GOENV)
             if rc != 0:
                 raise C.BuildError("fact extraction failed (sources do not type-check?):\n" + o)
-            notes.append("Consts.lean regenerated from %s" % C.REPO)
+            try:
+                na = open(os.path.join(gen, "Consts.lean")).read().count("-- alias: renamed in the sources")
+            except OSError:
+                na = 0
+            notes.append("Consts.lean regenerated from %s" % C.REPO + (" (%d constants renamed in the sources, matched by package, type and value)" % na if na else ""))
         if "access" in which:
             os.makedirs(C.WORK, exist_ok=True)
             rc, o = C.sh([exe, "access", C.REPO, os.path.join(gen, "AccessIR.lean"), os.path.join(C.WORK, "access.json")], env=C.GOENV)
